@@ -613,6 +613,15 @@ def lut2(p, res):
                     try:
                         if not all(_sw_holds(f, ev, sym, c_) for c_ in sw):
                             continue
+                        ok = True
+                        for c_ in conds:
+                            if c_[0] == "cmp":
+                                x, y = ev.key(c_[2]), ev.key(c_[3])
+                                if not {"Eq": x == y, "Ne": x != y, "Lt": x < y, "Le": x <= y, "Gt": x > y, "Ge": x >= y}[c_[1]]:
+                                    ok = False
+                                    break
+                        if not ok:
+                            continue
                         v = ev.poly(val_pl)
                     except (_Unjudged, pwl.ErrPath, ZeroDivisionError):
                         unj += 1
